@@ -193,6 +193,10 @@ class Unknown:
 
     def __pyvc_call__(self, sx, args, kwargs, st, node):
         sx.uncontracted.append("%s (line %s)" % (self.why, getattr(node, "lineno", "?")))
+        if sx.spec_mode:
+            # element / condition of a comprehension of the real code (evaluated once, symbolically, without effects): some value
+            t = V.Opaque("unknown")
+            return [R(st, Val(t, z3.Const(fresh_name("unknown"), t.sort())))]
         for cell in list(st.heap):
             if cell not in sx.frozen_cells(st):
                 sx.havoc_cell(cell, st)
@@ -725,6 +729,9 @@ class SX:
         if not self.spec_mode and self.reg.bound_at_module_level(self, name):
             # imported or defined in the module, but nobody gave it a contract or a model
             return Conc(Unknown(name))
+        import builtins as _pybuiltins
+        if self.unit is not None and hasattr(_pybuiltins, name) and name not in ("old", "forall", "exists", "implies", "iff", "ghost", "matches"):
+            return Conc(Unknown("builtins." + name))    # a python builtin the executor has no model for
         self.unsupported("unbound name %r" % name, node)
 
     def ev_Name(self, node, st):
@@ -768,7 +775,7 @@ class SX:
             vals = [self.lift(v) if isinstance(v, Conc) else self.deref(v, st) for v in vals]
         except Unsupported:
             return Conc(HetList(raw))
-        if elem_ty is None and vals and any(isinstance(v, (Ref, Func, Conc)) or v.ty is None or v.ty != vals[0].ty for v in vals):
+        if elem_ty is None and vals and any(isinstance(v, (Ref, Func, Conc)) or v.ty is None or v.term is None or v.ty != vals[0].ty for v in vals):
             # a list literal of mixed python types (e.g. a protocol frame ["OK", id, True, ""]): kept as a python-level tuple
             return Conc(HetList(raw))
         if elem_ty is None:
@@ -870,6 +877,10 @@ class SX:
                 t = self.truthy(v, st)
                 cur = self.ite(t, cur, v, st) if is_and else self.ite(t, v, cur, st)
                 if cur is None:
+                    if any(isinstance(x, Val) and isinstance(x.ty, V.Opaque) and x.ty._n == "unknown" for x in vals):
+                        # operands without contract: only the truth value of the whole expression is meaningful
+                        ts = [self.truthy(x, st) for x in vals]
+                        return [R(st, Val(V.Bool, z3.And(*ts) if is_and else z3.Or(*ts)))]
                     self.unsupported("and/or of incompatible types in a contract expression", node)
             return [R(st, cur)]
 
@@ -1234,6 +1245,16 @@ class SX:
         if isinstance(f, Func):
             has_unknown = any(isinstance(a, Conc) and isinstance(a.v, Unknown) for a in list(args) + list(kwargs.values()))
             if not has_unknown:
+                if f.label.startswith("builtin:") and not self.spec_mode:
+                    probe0 = st.fork()
+                    try:
+                        return f.fn(self, args, kwargs, st, node)
+                    except Unsupported:
+                        # a python builtin used in a way the executor does not model (sorted() of a set, ...): builtins do not mutate
+                        # their arguments (the ones that do -- none here -- are modelled); the result is a value without contract
+                        st.pc, st.heap, st.ghost = probe0.pc, probe0.heap, probe0.ghost
+                        self.uncontracted.append("%s (line %s)" % (f.label, getattr(node, "lineno", "?")))
+                        return [R(st, Conc(Unknown("%s()" % f.label[8:]))), R(st.fork(), None, Exc("Exception", exact=False))]
                 return f.fn(self, args, kwargs, st, node)
             # a modelled function applied to a value without contract: if the model cannot cope, its result is unknown too
             probe = st.fork()
@@ -1506,7 +1527,17 @@ class SX:
         load = ast.copy_location(self._as_load(stmt.target), stmt)
         binop = ast.copy_location(ast.BinOp(left=load, op=stmt.op, right=stmt.value), stmt)
         ast.fix_missing_locations(binop)
-        # list += is in-place extend
+        # list += is an in-place extend: on a list VALUE (an element of a record field such as event.tags[i], a value the function
+        # was handed and does not own) that is a write to somebody else's object -- a frame violation, not a local rebinding
+        if isinstance(stmt.op, ast.Add) and isinstance(stmt.target, ast.Name) and not self.spec_mode:
+            cur = None
+            for fr in reversed(st.frames):
+                if stmt.target.id in fr:
+                    cur = fr[stmt.target.id]
+                    break
+            if isinstance(cur, Val) and not isinstance(cur, (Ref, Func, Conc)) and isinstance(cur.ty, V.List):
+                self.oblige(st, "%s/frame:mutates-a-list-it-does-not-own@%s" % (self.cur_func, getattr(stmt, "lineno", "?")),
+                            z3.BoolVal(False), "frame", stmt)
         outs = []
         for r in self.ev(binop, st):
             if r.exc is not None:
@@ -1597,6 +1628,10 @@ class SX:
             return outs
         if isinstance(val, Val) and isinstance(val.ty, V._Json):
             return self.B.json_unpack(self, tgt, val, st)
+        if isinstance(val, Conc) and isinstance(val.v, Unknown) and not self.spec_mode:
+            # unpacking a value without contract: each target is unknown; or it is not a sequence of that length
+            items = [Conc(Unknown("%s[%d]" % (val.v.why, i))) for i in range(n)]
+            return self._assign_all(tgt.elts, items, st) + [Out("raise", st.fork(), Exc("Exception", exact=False))]
         self.unsupported("unpacking of %r" % (val,), tgt)
 
     def _assign_all(self, elts, items, st):
